@@ -251,11 +251,18 @@ def render_text(val, ch, toks):
             pieces = spell_value(run, ch, False, 0)
             # a raw "]]>" must not be formed across two adjacent text tokens either
             if toks and toks[-1]["k"] == "text":
-                prev = spell(toks[-1]["pieces"])
+                # the whole run of directly preceding character-data tokens counts
+                prev = []
+                q = len(toks) - 1
+                while q >= 0 and toks[q]["k"] == "text":
+                    prev = spell(toks[q]["pieces"]) + prev
+                    q -= 1
                 sp = spell(pieces)
                 joined = prev[-2:] + sp[:2]
                 if has_cdata_end(joined):
                     pieces[0] = piece("dec", run[0])
+                    if has_cdata_end(prev[-2:] + spell(pieces)[:2]) and len(pieces) > 1:
+                        pieces[1] = piece("dec", run[1])
                 lastp = toks[-1]["pieces"][-1] if toks[-1]["pieces"] else None
                 if lastp and lastp["t"] == "eol" and lastp["e"] == "cr" and pieces[0]["t"] == "eol" and pieces[0]["e"] == "lf":
                     pieces[0] = piece("eol", e="crlf")
@@ -426,8 +433,8 @@ def rand_pi(rnd):
 def rand_doc(rnd, size=12, depth=3, rich=True):
     budget = [size]
     root = rand_elem(rnd, depth, {}, budget, rich)
-    before = [rnd.choice([("comm", rand_comment(rnd)), rand_pi(rnd)]) for _ in range(rnd.choice([0, 0, 1]))]
-    after = [rnd.choice([("comm", rand_comment(rnd)), rand_pi(rnd)]) for _ in range(rnd.choice([0, 0, 1]))]
+    before = [rnd.choice([("comm", rand_comment(rnd)), rand_pi(rnd)]) for _ in range(rnd.choice([0, 0, 1, 2, 3]))]
+    after = [rnd.choice([("comm", rand_comment(rnd)), rand_pi(rnd)]) for _ in range(rnd.choice([0, 0, 1, 2, 3]))]
     dedupe_ids(root, set())
     return {"before": before, "root": root, "after": after}
 
@@ -467,7 +474,7 @@ def doc_ids(doc):
 
 
 # ------------------------------------------------------------------------------------------------ damage catalogue (C03)
-DAMAGES = ["rename-etag", "delete-etag", "duplicate-etag", "insert-etag", "stray-etag-top", "delete-root", "second-root", "top-text",
+DAMAGES = ["dup-attr-expanded-inherited", "rename-etag", "delete-etag", "duplicate-etag", "insert-etag", "stray-etag-top", "delete-root", "second-root", "top-text",
            "dup-attr-qname", "dup-attr-expanded", "dup-prefix-decl", "undeclared-elem-prefix", "undeclared-attr-prefix",
            "raw-lt", "raw-amp", "cdata-end-in-text", "unterminated-comment", "double-dash-comment", "unterminated-pi", "unterminated-cdata",
            "unterminated-ref", "unknown-entity", "bad-charref-syntax", "nonchar-ref", "dtd", "version-1.1", "dup-xml-id", "unclosed-root",
@@ -540,6 +547,15 @@ def damage(toks, kind, rnd):
         add_attr(t[i], "xmlns", "dy", [piece("lit", c) for c in cps("u3")])
         add_attr(t[i], "dx", "k", [piece("lit", 49)])
         add_attr(t[i], "dy", "k", [piece("lit", 50)])
+    elif kind == "dup-attr-expanded-inherited" and len(stags) >= 2:
+        # the two prefixes are declared on the root, the clashing attributes sit on a descendant without declarations
+        add_attr(t[stags[0]], "xmlns", "dx", [piece("lit", c) for c in cps("u3")])
+        add_attr(t[stags[0]], "xmlns", "dy", [piece("lit", c) for c in cps("u3")])
+        i = rnd.choice(stags[1:])
+        if any(a["px"] == "xmlns" and a["ln"] in ("dx", "dy") for a in t[i]["attrs"]):
+            return None
+        add_attr(t[i], "dx", "k", [piece("lit", 49)])
+        add_attr(t[i], "dy", "k", [piece("lit", 50)])
     elif kind == "dup-prefix-decl" and stags:
         i = rnd.choice(stags)
         add_attr(t[i], "xmlns", "dz", [piece("lit", c) for c in cps("u1")])
@@ -569,9 +585,25 @@ def damage(toks, kind, rnd):
     elif kind == "unterminated-ref" and content_pos:
         t.insert(rnd.choice(content_pos), junk("x&amp y", "unterminated-ref"))
     elif kind == "unknown-entity" and content_pos:
-        t.insert(rnd.choice(content_pos), junk("&nbsp;", "unknown-entity"))
+        if rnd.random() < 0.5 and etags:
+            # late in a long run of character data, just before the last end tag
+            t.insert(etags[-1], junk("abcdefghijklmnopqrstuvwxyz0123456789&nbsp;", "unknown-entity"))
+        else:
+            t.insert(rnd.choice(content_pos), junk("&nbsp;", "unknown-entity"))
     elif kind == "bad-charref-syntax" and content_pos:
-        t.insert(rnd.choice(content_pos), junk(rnd.choice(["&#+65;", "&#x+41;", "&#;", "&#x;", "&#65x;", "&#xG;", "&# 65;"]), "bad-charref"))
+        bad = rnd.choice(["&#+65;", "&#x+41;", "&#;", "&#x;", "&#65x;", "&#xG;", "&# 65;"])
+        if rnd.random() < 0.5 and etags:
+            t.insert(etags[-1], junk("abcdefghijklmnopqrstuvwxyz0123456789" + bad, "bad-charref"))
+        elif rnd.random() < 0.3 and stags:
+            # inside an attribute value, after other characters
+            i = stags[-1]
+            add_attr(t[i], "", "bad", [piece("lit", 120)])
+            vals = [p for p in t[i]["parts"] if p["r"] == "aval"]
+            vals[-1]["s"] = cps("abcdefghijklmnopqrstuvwxyz" + bad)
+            t[i]["k"] = "junk"
+            t[i]["junk"] = "bad-charref-in-attribute"
+        else:
+            t.insert(rnd.choice(content_pos), junk(bad, "bad-charref"))
     elif kind == "nonchar-ref" and content_pos:
         c = rnd.choice(NONCHARS)
         p = piece("dec", c) if rnd.random() < 0.5 else piece("hex", c, up=rnd.random() < 0.5)
